@@ -68,6 +68,9 @@ def qListHeader : Str := [116, 101, 120, 116, 58, 108, 105, 115, 116, 45, 104, 1
 def qHeaderRows : Str := [116, 97, 98, 108, 101, 58, 116, 97, 98, 108, 101, 45, 104, 101, 97, 100, 101, 114, 45, 114, 111, 119, 115]  -- table:table-header-rows
 def qSoftPageBreak : Str := [116, 101, 120, 116, 58, 115, 111, 102, 116, 45, 112, 97, 103, 101, 45, 98, 114, 101, 97, 107]  -- text:soft-page-break
 def qSection : Str := [116, 101, 120, 116, 58, 115, 101, 99, 116, 105, 111, 110]  -- text:section
+def qCustomShape : Str := [100, 114, 97, 119, 58, 99, 117, 115, 116, 111, 109, 45, 115, 104, 97, 112, 101]  -- draw:custom-shape
+def qRect : Str := [100, 114, 97, 119, 58, 114, 101, 99, 116]  -- draw:rect
+def qEllipse : Str := [100, 114, 97, 119, 58, 101, 108, 108, 105, 112, 115, 101]  -- draw:ellipse
 
 /-- the supported vocabulary with its (start handler, end handler) -/
 def vocabulary : List (Str × Option HName × Option HName) := [
@@ -106,6 +109,9 @@ def vocabulary : List (Str × Option HName × Option HName) := [
   (qCovered, some .s_ignorexml, none),
   (qFrame, some .s_draw_frame, some .e_draw_frame),
   (qTextBox, some .s_draw_textbox, some .e_draw_textbox),
+  (qCustomShape, some .s_custom_shape, some .e_custom_shape),
+  (qRect, some .s_draw_shape, none),
+  (qEllipse, some .s_draw_shape, none),
   (qImage, some .s_draw_image, none),
   (qPage, some .s_draw_page, some .e_draw_page),
   (qNote, some .s_text_note, none),
@@ -188,6 +194,14 @@ theorem flow_cell (b : Bool) (a : Attrs) (kids : List Node) (h : FlowL b kids) :
   .bracket b qCell a kids _ _ (disp (by decide)) (.cell a) h
 theorem flow_frame (b : Bool) (a : Attrs) (kids : List Node) (h : FlowL b kids) : Flow b (.elem qFrame a kids) :=
   .bracket b qFrame a kids _ _ (disp (by decide)) (.frame a) h
+/-- drawing shapes that hold paragraphs (e7e9e0f): draw:custom-shape is a <div> like the frame, draw:rect / draw:ellipse
+    (handler `s_draw_shape`) only write the pending text -/
+theorem flow_custom_shape (b : Bool) (a : Attrs) (kids : List Node) (h : FlowL b kids) : Flow b (.elem qCustomShape a kids) :=
+  .bracket b qCustomShape a kids _ _ (disp (by decide)) (.shape a) h
+theorem flow_rect (b : Bool) (a : Attrs) (kids : List Node) (h : FlowL b kids) : Flow b (.elem qRect a kids) :=
+  .leaf b qRect a kids _ (disp (by decide)) (.drawshape a) h
+theorem flow_ellipse (b : Bool) (a : Attrs) (kids : List Node) (h : FlowL b kids) : Flow b (.elem qEllipse a kids) :=
+  .leaf b qEllipse a kids _ (disp (by decide)) (.drawshape a) h
 theorem flow_text_box (b : Bool) (a : Attrs) (kids : List Node) (h : FlowL b kids) : Flow b (.elem qTextBox a kids) :=
   .bracket b qTextBox a kids _ _ (disp (by decide)) (.textbox a) h
 theorem flow_page (b : Bool) (a : Attrs) (kids : List Node) (h : FlowL b kids) : Flow b (.elem qPage a kids) :=
@@ -446,6 +460,15 @@ theorem txt_cell (b c2 : Bool) (a : Attrs) (kids : List Node) (h : TxtL b true c
 /-- a frame writes the pending text before it opens (repair 29b6eef): whatever is pending, its content starts clean -/
 theorem txt_frame (b c c' : Bool) (a : Attrs) (kids : List Node) (h : TxtL b true c' kids) : Txt b c c' (.elem qFrame a kids) :=
   .bracket b c true c' c' qFrame a kids _ _ .flush .keep (disp (by decide)) (.frame a) rfl rfl rfl h rfl
+/-- a drawing shape writes the pending text before its content (repair e7e9e0f): whatever is pending, its content starts
+    clean - the former class `x-pending-before-shape` -/
+theorem txt_custom_shape (b c c' : Bool) (a : Attrs) (kids : List Node) (h : TxtL b true c' kids) :
+    Txt b c c' (.elem qCustomShape a kids) :=
+  .bracket b c true c' c' qCustomShape a kids _ _ .flush .keep (disp (by decide)) (.shape a) rfl rfl rfl h rfl
+theorem txt_rect (b c c' : Bool) (a : Attrs) (kids : List Node) (h : TxtL b true c' kids) : Txt b c c' (.elem qRect a kids) :=
+  .leaf b c true c' qRect a kids _ .flush (disp (by decide)) (.drawshape a) rfl rfl h
+theorem txt_ellipse (b c c' : Bool) (a : Attrs) (kids : List Node) (h : TxtL b true c' kids) : Txt b c c' (.elem qEllipse a kids) :=
+  .leaf b c true c' qEllipse a kids _ .flush (disp (by decide)) (.drawshape a) rfl rfl h
 theorem txt_text_box (b c c' : Bool) (a : Attrs) (kids : List Node) (h : TxtL b c c' kids) : Txt b c c' (.elem qTextBox a kids) :=
   .bracket b c c c' c' qTextBox a kids _ _ .keep .keep (disp (by decide)) (.textbox a) rfl rfl rfl h rfl
 theorem txt_page (b c c' : Bool) (a : Attrs) (kids : List Node) (h : TxtL b c c' kids) : Txt b c c' (.elem qPage a kids) :=
@@ -689,21 +712,21 @@ example : convert ⟨false, []⟩ (textDoc [.elem qP [] [.text [97], .elem qS []
     .ok (docStart ++ [.ctag nHead true, .otag nBody [] true, .otag nP [] false, .text [97], .raw .nbsp, .text [98], .ctag nP true,
                       .ctag nBody true, .ctag nHtml true]) := by rfl
 
-/-! ### pending: paragraph text directly in front of a drawing shape (harness class `x-pending-before-shape`) -/
+/-! ### e7e9e0f: paragraph text directly in front of a drawing shape (former harness class `x-pending-before-shape`) -/
 
-def qCustomShape : Str := [100, 114, 97, 119, 58, 99, 117, 115, 116, 111, 109, 45, 115, 104, 97, 112, 101]  -- draw:custom-shape
-def qRect : Str := [100, 114, 97, 119, 58, 114, 101, 99, 116]  -- draw:rect
+/-- **C18 (XHTML, x-pending-before-shape repaired)**: `<p>a<custom-shape><p>b</p></custom-shape>c</p>` keeps the "a" —
+    s_custom_shape writes the pending data before it opens its <div> (corpus document `custom-shape-in-paragraph`; in
+    general: `txt_custom_shape` puts the shape into the documents of `complete_nonWs_partial`) -/
+theorem custom_shape_keeps_pending_text : (convert ⟨false, []⟩ (textDoc [.elem qP [] [.text [97],
+    .elem qCustomShape [] [.elem qP [] [.text [98]]], .text [99]]])).toOption.map textOf = some [97, 98, 99] := by rfl
 
-/-- **C18 (XHTML, pending x-pending-before-shape)**: `<p>a<custom-shape><p>b</p></custom-shape>c</p>` — s_custom_shape
-    opens its <div> without writing the pending data, the paragraph inside purges it: the "a" is lost (the frame of
-    29b6eef above keeps it).  The real converter gives the same text (corpus document `custom-shape-in-paragraph`). -/
-theorem custom_shape_loses_pending_text : (convert ⟨false, []⟩ (textDoc [.elem qP [] [.text [97],
-    .elem qCustomShape [] [.elem qP [] [.text [98]]], .text [99]]])).toOption.map textOf = some [98, 99] := by rfl
-
-/-- **C18 (XHTML, pending x-pending-before-shape)**: the same with a shape that has no handler at all (draw:rect, corpus
-    document `shape-in-paragraph`) -/
-theorem unhandled_shape_loses_pending_text : (convert ⟨false, []⟩ (textDoc [.elem qP [] [.text [97],
-    .elem qRect [] [.elem qP [] [.text [98]]], .text [99]]])).toOption.map textOf = some [98, 99] := by rfl
+/-- **C18 (XHTML, x-pending-before-shape repaired)**: the same for draw:rect / draw:ellipse (handler `s_draw_shape`, corpus
+    document `shape-in-paragraph`; in general `txt_rect`, `txt_ellipse`) -/
+theorem shape_keeps_pending_text : ∀ q ∈ [qRect, qEllipse], (convert ⟨false, []⟩ (textDoc [.elem qP [] [.text [97],
+    .elem q [] [.elem qP [] [.text [98]]], .text [99]]])).toOption.map textOf = some [97, 98, 99] := by
+  intro q hq
+  simp only [List.mem_cons, List.not_mem_nil, or_false] at hq
+  rcases hq with rfl | rfl <;> rfl
 
 /-! ### MoinMoin -/
 
@@ -746,7 +769,7 @@ example : ∃ out, Moin.toString moinStyles (moinContent
       [.elem qP [] [.text [97], .elem qSpan [] [.text [98]], .elem qS [] []], .elem qH [(Moin.kOutline, [50])] [.text [99]]]) = .ok out ∧
     (Moin.nonWs [97, 98, 99]).Sublist (Moin.nonWs out) := by
   have nb : ∀ q : Str, q = qSpan ∨ q = qS → Moin.notBlock q := by
-    intro q h; rcases h with rfl | rfl <;> (refine ⟨?_, ?_, ?_, ?_, ?_, ?_, ?_⟩ <;> decide)
+    intro q h; rcases h with rfl | rfl <;> (refine ⟨by decide +kernel, ?_, ?_, ?_, ?_, ?_⟩ <;> decide)
   have hp : Moin.MPara (.elem qP [] [.text [97], .elem qSpan [] [.text [98]], .elem qS [] []]) :=
     .mk _ _ _ (Or.inl rfl) (Or.inl rfl)
       (.cons _ _ (.text _) (.cons _ _ (.markup qSpan [] _ (nb _ (Or.inl rfl)) (by decide) (.cons _ _ (.text _) .nil))
